@@ -232,7 +232,8 @@ def case_C15(seed):
     origin = (lat0, lon0)
 
     if seed % 9 == 4:
-        lon0 = rnd.choice([179.9995, -179.9998, 180.0])      # 'any longitude': the map straddles the antimeridian
+        # 'any longitude': the map straddles the antimeridian (the line runs through the grid, 1 to 3 units from its west side)
+        lon0 = 180.0 - math.degrees(rnd.choice([1.0, 2.0, 2.25, 3.0]) * s / (G.R * math.cos(math.radians(lat0))))
         origin = (lat0, lon0)
 
     def to_ll(p):
